@@ -151,7 +151,12 @@ func (m *Manager) handlePotentialHeader(ctx context.Context, bz []byte, daHeight
 		default:
 			m.logger.Warn("headerInCh backlog full, dropping header: daHeight ", daHeight)
 		}
-		m.headerInCh <- NewHeaderEvent{header, daHeight}
+		// the hand-off to sync must not block forever once the node is asked to stop
+		select {
+		case <-ctx.Done():
+			return true
+		case m.headerInCh <- NewHeaderEvent{header, daHeight}:
+		}
 	}
 	return true
 }
@@ -192,7 +197,12 @@ func (m *Manager) handlePotentialData(ctx context.Context, bz []byte, daHeight u
 		default:
 			m.logger.Warn("dataInCh backlog full, dropping signed data", "daHeight", daHeight)
 		}
-		m.dataInCh <- NewDataEvent{&signedData.Data, daHeight}
+		// the hand-off to sync must not block forever once the node is asked to stop
+		select {
+		case <-ctx.Done():
+			return
+		case m.dataInCh <- NewDataEvent{&signedData.Data, daHeight}:
+		}
 	}
 }
 
